@@ -479,16 +479,16 @@ Lemma load_entries_np o ic : forall kv cond ids, np (load_entries o ic kv cond i
 Proof.
   induction kv as [|[k v] kv IH]; intros cond ids; cbn [load_entries].
   - apply np_ok.
-  - destruct k; try apply np_err.
+  - destruct (untag k); try apply np_err.
     destruct (str_eqb s cond_key).
-    + destruct v; try apply np_err. apply IH.
+    + destruct (untag v); try apply np_err. apply IH.
     + apply bind_np; [apply as_rule_err_np, parse_identifier_np|].
       intros e _. apply IH.
 Qed.
 
 Lemma load_detection_np o ic y : np (load_detection o ic y).
 Proof.
-  unfold load_detection. destruct y; try apply np_err.
+  unfold load_detection. destruct (untag y); try apply np_err.
   apply bind_np; [apply load_entries_np|]. intros [cond ids] _.
   destruct cond as [raw|]; [|apply np_err].
   apply bind_np; [apply as_rule_err_np; exact (tokenise_total o raw)|]. intros ts _.
@@ -499,13 +499,13 @@ Qed.
 
 Lemma load_rule_np o ic y : np (load_rule o ic y).
 Proof.
-  unfold load_rule. destruct y; try apply np_err.
-  apply bind_np; [repeat np_step|]. intros opt _.
+  unfold load_rule. destruct (untag y); try apply np_err.
+  apply bind_np; [destruct (option_map untag (ylookup key_optimised kv)) as [[]|]; repeat np_step|]. intros opt _.
   apply bind_np.
   { destruct (ylookup key_detection kv); [apply load_detection_np | apply np_err]. }
   intros det _.
-  apply bind_np; [repeat np_step|]. intros tp _.
-  apply bind_np; [repeat np_step|]. intros tn _.
+  apply bind_np; [destruct (option_map untag (ylookup key_tp kv)) as [[]|]; repeat np_step|]. intros tp _.
+  apply bind_np; [destruct (option_map untag (ylookup key_tn kv)) as [[]|]; repeat np_step|]. intros tn _.
   apply np_ok.
 Qed.
 
